@@ -102,6 +102,25 @@ func (w wire) claimed() map[string]bool {
 	return m
 }
 
+// bare: the wire names exactly one client and carries nothing that could prove anything (no assertion, no non-empty secret);
+// via = how the name travels ("basic": Basic header with an empty password, "form": client_id parameter, with or without an
+// empty client_secret - the two are the same form value to a server), id = the client named ("" when the wire is not bare).
+func (w wire) bare() (via, id string) {
+	if w.hasAssertion || w.basicSec != "" || w.bodySec != "" {
+		return "", ""
+	}
+	cl := w.claimed()
+	if len(cl) != 1 {
+		return "", ""
+	}
+	for id = range cl {
+	}
+	if w.hasBasic {
+		return "basic", id
+	}
+	return "form", id
+}
+
 func public(c *vkit.ClientSpec) bool { return c.AuthMethod == "none" }
 
 // proves: the wire carries a valid credential of c (public client: names c).
